@@ -68,9 +68,11 @@ def handle (j : Json) : Json :=
     jarr (r.map nmJson)
   | "search" =>
     let evs := runWalk j
-    let r := projectSearch (parseLower j) ((arr j "table").map parseInfo) ((arr j "sys_names").map parseNm) (nat j "parse_limit")
-      (nat j "open_limit") (chars j "type") (chars j "name") (bool j "complete") evs
-    jarr (r.map nmJson)
+    match projectSearch srcFileBranch srcModuleSuffixes srcStubSuffix (parseLower j) ((arr j "table").map parseInfo)
+      ((arr j "sys_names").map parseNm) (nat j "parse_limit")
+      (nat j "open_limit") (chars j "type") (chars j "name") (bool j "complete") evs with
+    | some r => jarr (r.map nmJson)
+    | none => jobj [("model_outcome", jstr "error: the file branch of step 1 reaches `yield from` without `m`")]
   | op => jobj [("error", jstr ("unknown op " ++ op))]
 
 def main : IO Unit := Proto.run handle
